@@ -203,6 +203,12 @@ def _ops():
     ops.append(("make_variable_static", {"name": "y"}))
     ops.append(("make_variable_static", {"name": "y", "value": 4.0}))
     ops.append(("make_variable_static", {"name": "zz"}))
+    # zero is a value like any other
+    ops.append(("make_variable_static", {"name": "y", "value": 0.0}))
+    ops.append(("make_parameter_dynamic", {"name": "p", "initial_value": 0.0}))
+    ops.append(("update_parameter", {"name": "k", "value": 0.0}))
+    ops.append(("update_variable", {"name": "x", "value": 0}))
+    ops.append(("update_parameters", {"parameters": {"k": 0.0, "p": 0}}))
     ops.append(("make_variable_static", {"name": "w"}))  # a variable whose start value is an initial assignment (base 0)
     # plural forms
     ops.append(("add_parameters", {"parameters": {"n1": 1.0, "n3": 2.0}}))
@@ -697,6 +703,21 @@ def check(case):
         want = a_.get("value", old) if a_.get("value") is not None else old
         if not _ceq(new_p, want):
             return bad("conversion-changed-value", "conversion-changed-value", f"parameter {a_['name']} is {new_p}, expected {want} (it was the variable's start value {old})")
+    # 2e. an update stores the number it is given (zero is a number), a scaling multiplies the stored number
+    if raised is None and opname in ("update_parameter", "update_variable", "update_parameters", "update_variables", "scale_parameter", "scale_parameters"):
+        kind = "variables" if "variable" in opname else "parameters"
+        old_vals, new_vals = dict((n_, v_) for n_, v_ in before[kind]), dict((n_, v_) for n_, v_ in after[kind])
+        if opname in ("update_parameter", "update_variable"):
+            given = {a_["name"]: a_["value"]}
+        elif opname == "scale_parameter":
+            given = {a_["name"]: old_vals.get(a_["name"]) * a_["factor"]} if isinstance(old_vals.get(a_["name"]), (int, float)) else {}
+        elif opname == "scale_parameters":
+            given = {n_: old_vals[n_] * f_ for n_, f_ in a_["parameters"].items() if isinstance(old_vals.get(n_), (int, float))}
+        else:
+            given = dict(a_[kind])
+        for n_, want in given.items():
+            if isinstance(want, (int, float)) and not _ceq(new_vals.get(n_), float(want)) and not _ceq(new_vals.get(n_), want):
+                return bad("update-not-stored", "update-not-stored", f"{kind[:-1]} {n_} holds {new_vals.get(n_)} after the update, expected {want}")
     # 3a. acceptance
     if expect == "reject" and raised is None:
         return bad("bad-edit-accepted", "name-clash-accepted", "edit must be rejected (name in use / time / unknown target) but was accepted")
